@@ -602,7 +602,8 @@ func c12NoReleaseAfterServe(c *Ctx, r *Report, rule string) {
 					return
 				}
 				g := ci.Common().StaticCallee()
-				if g == nil || !putters[g] {
+				cn := calleeNameSSA(ci.Common())
+				if g == nil || !(putters[g] || cn == "(sync.Pool).Put" || cn == "(*sync.Pool).Put") {
 					return
 				}
 				for _, a := range ci.Common().Args {
